@@ -283,3 +283,9 @@ def r7(c):
 def r8(c):
     from rules import c20
     c20.r1(c)
+
+
+@rule('C06', 'R06.9', 'the bytes the CRC is computed over are the bytes received: receive-buffer discipline, compaction keeps exactly the unread bytes (C05/R05.6)', needs=HAS_SERIAL)
+def r9(c):
+    from rules import c05
+    c05.r6(c)
